@@ -296,7 +296,8 @@ fn make_atom(l: Srcloc, v: Vec<u8>) -> SExp {
         let want_name = v[1..].to_vec();
         for p in prims() {
             if want_name == p.0 {
-                return p.1;
+                // The token is in this file, not in the table of primitives.
+                return p.1.with_loc(l);
             }
         }
 
